@@ -277,3 +277,35 @@ c.ensure('positional_defaults_align_with_the_end_of_the_parameter_list', lambda 
     patterns=[_sp(x).fields['args'].arr[i_]]))
 c.raises_only_listed = True
 register(c)
+
+
+# ---- _make_gin_wrapper (the outer function): what is validated at registration time (C10, C13) -----
+c = Contract('config.py::_make_gin_wrapper', ['C10'])
+c.param('fn', KVal)
+c.param('fn_or_cls', KVal)
+c.param('name', KStr)
+c.param('selector', KStr)
+c.param('allowlist', KOpt(StrList))
+c.param('denylist', KOpt(StrList))
+c.result = KVal
+c.may_raise_other = True          # the REQUIRED validation raises ValueError
+
+
+def _sigfn(x):
+  f0 = x.a.fn_or_cls.e
+  return z3.If(sym.ufun('is_class', sym.Val, sym.BoolS)(f0),
+               sym.ufun('construction_fn', sym.Val, sym.Val)(f0), f0)
+
+
+def _first_arg_of(x, qual):
+  """The value passed for the parameter `fn` in each call of `qual` made by this function."""
+  ev = [e for e in x.trace if e.get('call') == qual]
+  return [sym.to_val(e['args']['fn']) for e in ev if 'fn' in (e.get('args') or {})]
+
+
+c.ensure('REQUIRED_markers_and_defaults_are_taken_from_the_construction_function', lambda x: z3.And(*(
+    [z3.BoolVal(len(_first_arg_of(x, 'config.py::_get_validated_required_kwargs')) == 1),
+     z3.BoolVal(len(_first_arg_of(x, 'config.py::_get_default_configurable_parameter_values')) == 1)] +
+    [a == _sigfn(x) for a in _first_arg_of(x, 'config.py::_get_validated_required_kwargs')] +
+    [a == _sigfn(x) for a in _first_arg_of(x, 'config.py::_get_default_configurable_parameter_values')])))
+register(c)
